@@ -25,7 +25,7 @@ MANIFEST = {
     "design_ref": "DESIGN.md §5 C24",
 }
 EXPLANATION = MANIFEST["level_text"]
-TRUSTED = ["pyvc VC generator (closures, dataclass construction, dataclasses.replace, exception hierarchy from the live classes)", "z3 5.1.0 / cvc5 1.0.3"]
+TRUSTED = ["pyvc VC generator (closures, dataclass construction, dataclasses.replace, exception hierarchy from the live classes)", "z3 5.1.0 / cvc5 1.4.0"]
 ASSUMPTIONS = [
     "user code (gate callable, inner authenticator, chain members) either returns a value or raises an exception; nothing else about it is assumed",
     "verify_proof by contract: returns claims with verified='true' or raises ProofError(reason) (C22.O1)",
